@@ -65,7 +65,7 @@ static void run() {
     auto &a = vp::args();
     size_t maxcap = a.thorough() ? 6 : 4;
     vp::stats().rule = vp::fmt("enum: closure of all (implementation state, model queue) pairs for capacities 1..%zu over put(1), put(2), get, clear, override on/off "
-                               "for octet_ring and for uint32_t/int16_t rings instantiated from the macros; all observers and both iterators after every transition; scripted wrap/evict/clear phases at capacities 255..257, 65535..65537, 70000 (thorough: up to 200000)", maxcap);
+                               "for octet_ring and for uint32_t/int16_t rings instantiated from the macros; all observers and both iterators after every transition; scripted wrap/evict/clear phases at every capacity 5..300 (thorough 1100), 2^9/2^10/2^12 +-1, 255..257, 65535..65537, 70000 (thorough: up to 200000)", maxcap);
     vp::stats().exhaustive = true;
     unsigned idx = 0;
     for (int type = 0; type < 3; type++)
@@ -82,6 +82,8 @@ static void large_capacities(bool thorough) {
     auto &a = vp::args();
     unsigned idx = 1000;
     std::vector<size_t> caps = {255, 256, 257, 65535, 65536, 65537, 70000};
+    for (size_t c = 5; c <= (thorough ? 1100u : 300u); c++) if (c < 255 || c > 257) caps.push_back(c);   // every capacity, not only the powers of two and their neighbours
+    for (size_t c : {511u, 512u, 513u, 1023u, 1024u, 1025u, 4095u, 4096u, 4097u}) caps.push_back(c);
     if (thorough) { caps.push_back(131072); caps.push_back(200000); }
     for (int type = 0; type < 3; type++) for (size_t cap : caps) {
         if (idx++ % a.nshards != a.shard) continue;
